@@ -25,6 +25,9 @@ ssize_t recv(int fd, void *buf, size_t len, int flags)
 __CPROVER_requires(__CPROVER_w_ok(buf, len))
 __CPROVER_assigns(__CPROVER_object_upto((unsigned char *)buf, len))
 __CPROVER_ensures(__CPROVER_return_value >= -1 && __CPROVER_return_value <= (ssize_t)len)
+#ifdef VP_RECV_MAX      /* bounded FALLBACK build only: short datagrams */
+__CPROVER_ensures(__CPROVER_return_value <= VP_RECV_MAX)
+#endif
 ;
 void *memcpy(void *dst, const void *src, size_t n)
 __CPROVER_requires(__CPROVER_w_ok(dst, n) && __CPROVER_r_ok(src, n))
@@ -112,6 +115,8 @@ def example_jobs(model, tier, config='le'):
     tu.add('void harness(void)\n{\n    use_udp = nondet_u8(); can_variant = (Avtp_CanVariant_t)nondet_uint(); vp_mc_i = nondet_size();\n'
            '    new_packet(nondet_int(), nondet_int());\n    VP_CANARY();\n}\n')
     repl = [g for v in LISTENER_GETTERS.values() for g in v] + ['Avtp_Can_GetPayload', 'recv', 'write', 'memcpy']
+    # (a bounded unwinding fallback for this loop was tried - 64-byte datagrams, 5 unwindings - and did not finish in 30 minutes:
+    # when the message loop is rewritten so that the loop contract no longer attaches, this obligation ends undecided)
     jobs.append(Job('examples/acf-can-listener/new_packet', tu.text(), [], enforce='new_packet', replace=repl,
                     loop_contracts={'new_packet': [{'template': NP_LOOP, 'symbols': NP_SYMS}]},
                     owners={'post': ['C18'], 'safety': ['C18'], 'assigns': ['C18'], 'loop': ['C18']}, clause_map=dict(tu.tags),
